@@ -180,8 +180,13 @@ type ModShard struct {
 }
 
 func (m *ModShard) FindForKey(key interface{}) (int, error) {
-	h := hack.Abs(NumValue(key))
-	return int(h % int64(m.ShardNum)), nil
+	// |key| as uint64: hack.Abs(math.MinInt64) is still negative and would give a negative index
+	v := NumValue(key)
+	h := uint64(v)
+	if v < 0 {
+		h = uint64(-(v + 1)) + 1
+	}
+	return int(h % uint64(m.ShardNum)), nil
 }
 
 type NumRangeShard struct {
